@@ -1,6 +1,7 @@
 package props
 
 import (
+	"bytes"
 	"github.com/Comcast/gots/v2/packet"
 
 	"gotsverif/engine"
@@ -405,6 +406,30 @@ func c01CheckMisc(c c01MiscCase) engine.Result {
 					break
 				}
 			}
+			// the same length as a slice CUT OUT of a larger buffer that holds a flawless packet (a short read into
+			// a reused buffer): what counts is the length of the slice, not what lies behind it
+			if c.N <= 400 {
+				big := make([]byte, 600)
+				for i := range big {
+					big[i] = byte(i*5 + 3)
+				}
+				big[0], big[3] = 0x47, 0x10
+				for _, off := range []int{0, 7} {
+					if off > 0 {
+						big[off], big[off+3] = 0x47, 0x10
+					}
+					view := big[off : off+c.N]
+					res.Evals++
+					p2, err2 := packet.FromBytes(view)
+					if c.N != 188 {
+						if err2 == nil || p2 != nil {
+							res.Failf("FromBytes|length-of-a-slice-with-spare-capacity", "a slice of length %d (capacity %d) was accepted (err=%v)", c.N, cap(view), err2)
+						}
+					} else if err2 != nil || p2 == nil || !bytes.Equal(p2[:], view) {
+						res.Failf("FromBytes|188-with-spare-capacity", "err=%v", err2)
+					}
+				}
+			}
 		case "FromBytes-validation":
 			// sync byte c.N x all byte-3 values: error exactly when validation fails, packet still returned
 			for b3 := 0; b3 < 256; b3++ {
@@ -592,6 +617,46 @@ func init() {
 				},
 				Check: c01CheckMisc, Batch: 4,
 			},
+			&engine.Enum[c01FixCase]{
+				Name: "fixtures-mutated",
+				Rule: "ONE case, alone in the process at that moment: the library's exported, mutable example packets (packet.TestPatPacket, packet.TestPmtPacket) are given other PIDs and header bits, then every header getter in both styles and the PAT/null classification are asked for all 8192 PIDs x 4 flag patterns; the fixtures are restored afterwards. Answers depend on the packet asked about, never on the contents of another packet",
+				Gen:   func(r *engine.Run, emit func(c01FixCase)) { emit(c01FixCase{0x123}) },
+				Check: c01CheckFixtures, Batch: 1,
+			},
 		},
 	})
+}
+
+type c01FixCase struct {
+	PID int `json:"pid_given_to_the_example_pat_packet"`
+}
+
+func c01CheckFixtures(c c01FixCase) engine.Result {
+	var res engine.Result
+	savePat, savePmt := packet.TestPatPacket, packet.TestPmtPacket
+	defer func() { packet.TestPatPacket, packet.TestPmtPacket = savePat, savePmt }()
+	engine.Guard(&res, "fixtures", func() {
+		packet.TestPatPacket.SetPID(c.PID)
+		packet.TestPatPacket[3] ^= 0xF0
+		packet.TestPmtPacket.SetPID(0)
+		packet.TestPmtPacket[1] |= 0x80
+		for pid := 0; pid < 8192; pid++ {
+			for _, b1 := range [...]byte{0x00, 0x40, 0xA0, 0xE0} {
+				var p packet.Packet
+				p[0], p[1], p[2], p[3] = 0x47, b1|byte(pid>>8), byte(pid), 0x1C
+				res.Evals++
+				if p.IsPAT() != (pid == 0) || packet.IsPat(&p) != (pid == 0) || p.IsNull() != (pid == 0x1FFF) || packet.IsNull(&p) != (pid == 0x1FFF) {
+					res.Failf("fixtures-mutated|classification", "PID %#x: IsPAT %v/%v IsNull %v/%v after the exported example packets were modified", pid, p.IsPAT(), packet.IsPat(&p), p.IsNull(), packet.IsNull(&p))
+					return
+				}
+				if p.PID() != pid || packet.Pid(&p) != pid || p.PayloadUnitStartIndicator() != (b1&0x40 != 0) || packet.PayloadUnitStartIndicator(&p) != (b1&0x40 != 0) ||
+					p.TransportErrorIndicator() != (b1&0x80 != 0) || p.TransportPriority() != (b1&0x20 != 0) || p.ContinuityCounter() != 0xC || packet.ContinuityCounter(&p) != 0xC || p.CheckErrors() != nil {
+					res.Failf("fixtures-mutated|getters", "PID %#x byte1 %#x: a getter answers differently after the exported example packets were modified", pid, b1)
+					return
+				}
+			}
+		}
+	})
+	res.Nontrivial = res.Evals
+	return res
 }
